@@ -18,7 +18,8 @@
               header read fails at EOF (CorruptedDataError at the end position)                   readHdr → atEof
               flush + close .pack; return opos, index       (commit lock still held)
     pack():   with _files.write_lock(): with _lock:
-                  _files.empty(); _file.close(); link Data.fs → Data.fs.old (rename if no links)  swapBegin
+                  _files.empty(); _file.close(); _clear_index();
+                  link Data.fs → Data.fs.old (rename if no links)                                 swapBegin
                   os.replace Data.fs.pack → Data.fs; reopen; _initIndex(index); _pos := opos      swapEnd
                   (either step raising: handler renames .old back if Data.fs is gone, reopens)
               finally: _commit_lock.release()                                                     releaseCommit
